@@ -155,16 +155,52 @@ func (s scheme) String() string {
 
 type subFn func(a, b byte) float64
 
-func (s scheme) sub(t *table) subFn {
+func up(c byte) byte {
+	if c >= 'a' && c <= 'z' {
+		return c - 32
+	}
+	return c
+}
+
+func hasLower(s string) bool { return strings.ToUpper(s) != s }
+
+func eqRaw(a, b byte) bool  { return a == b }
+func eqFold(a, b byte) bool { return up(a) == up(b) }
+
+// sub: pair scores. The matrices are defined on letters, whatever their case (a soft-masked residue
+// is the same residue). For match/mismatch schemes "match" is decided by eq: the documentation does
+// not say whether a and A match, so both readings exist (see readingsOf)
+func (s scheme) subWith(t *table, eq func(a, b byte) bool) subFn {
 	if s.Matrix {
-		return func(a, b byte) float64 { return t.m[a][b] }
+		return func(a, b byte) float64 { return t.m[up(a)][up(b)] }
 	}
 	return func(a, b byte) float64 {
-		if a == b {
+		if eq(a, b) {
 			return s.Match
 		}
 		return s.Mismatch
 	}
+}
+
+func (s scheme) sub(t *table) subFn { return s.subWith(t, eqRaw) }
+
+// reading: one admissible way of scoring and of counting matches
+type reading struct {
+	name string
+	sub  subFn
+	eq   func(a, b byte) bool
+}
+
+// readingsOf: with upper case input there is one reading. With lower case letters present:
+// matrix schemes score case-folded letters, and "match" in the match/mismatch counts may mean the
+// same character or the same letter; match/mismatch schemes are read either entirely
+// case-sensitively or entirely case-folded (score and counts under one and the same reading)
+func readingsOf(s scheme, t *table, lower bool) []reading {
+	rs := []reading{{"case-sensitive", s.subWith(t, eqRaw), eqRaw}}
+	if lower {
+		rs = append(rs, reading{"case-folded", s.subWith(t, eqFold), eqFold})
+	}
+	return rs
 }
 
 // scoreRows: score of two gapped rows under gap(n) = open + (n-1)*extend, a gap being a maximal
@@ -308,7 +344,8 @@ func (e *optError) Error() string { return e.msg }
 func isOptError(err error) bool { _, ok := err.(*optError); return ok }
 
 // judge checks every clause of the statement on one observation
-func judge(s1, s2 string, sub subFn, open, ext float64, ob obs, withBrute bool) (in info, err error) {
+func judge(s1, s2 string, rd reading, open, ext float64, ob obs, withBrute bool) (in info, err error) {
+	sub, eq := rd.sub, rd.eq
 	// --- validity
 	if len(ob.Row1) != len(ob.Row2) {
 		return in, fmt.Errorf("rows of different lengths: %q / %q", ob.Row1, ob.Row2)
@@ -332,7 +369,7 @@ func judge(s1, s2 string, sub subFn, open, ext float64, ob obs, withBrute bool) 
 			cur = 2
 		}
 		if cur == 0 {
-			if a == b {
+			if eq(a, b) {
 				m++
 				if sub(a, b) < 0 {
 					in.negativeIdent = true
@@ -470,7 +507,7 @@ type swCase struct {
 
 func allIn(s string, t *table) bool {
 	for i := 0; i < len(s); i++ {
-		if !t.has[s[i]] {
+		if !t.has[up(s[i])] {
 			return false
 		}
 	}
@@ -485,7 +522,7 @@ func tablesFor(c swCase) (ts []*table, open bool) {
 	if c.Kind == "dna" {
 		return []*table{dnaTable}, false
 	}
-	if strings.ContainsAny(c.S1, protOnly) || strings.ContainsAny(c.S2, protOnly) {
+	if strings.ContainsAny(strings.ToUpper(c.S1+c.S2), protOnly) {
 		return []*table{protTable}, false
 	}
 	ts = []*table{protTable}
@@ -549,13 +586,22 @@ func checkSW(c swCase) (o pbt.Outcome, err error) {
 	withBrute := len(c.S1) <= 3 && len(c.S2) <= 3
 	var in info
 	var firstErr error
+	lower := hasLower(c.S1 + c.S2)
+	caseReading := ""
+tables:
 	for _, t := range tables {
-		in, err = judge(c.S1, c.S2, c.Sch.sub(t), c.Sch.Open, c.Sch.Extend, ob, withBrute)
-		if err == nil {
-			break
-		}
-		if firstErr == nil {
-			firstErr = err
+		for ri, rd := range readingsOf(c.Sch, t, lower) {
+			in, err = judge(c.S1, c.S2, rd, c.Sch.Open, c.Sch.Extend, ob, withBrute)
+			if err == nil {
+				if ri > 0 {
+					o.Ambiguous++
+				}
+				caseReading = rd.name
+				break tables
+			}
+			if firstErr == nil {
+				firstErr = err
+			}
 		}
 		if !c.Sch.Matrix {
 			break // the table plays no role
@@ -576,6 +622,12 @@ func checkSW(c swCase) (o pbt.Outcome, err error) {
 	}
 	classify(&o, c.S1, c.S2, c.Sch, in)
 	o.Class("alphabet=%s", c.Kind)
+	if lower {
+		o.Class("lower-case-present:%s", caseReading)
+		if strings.ToLower(c.S1+c.S2) != c.S1+c.S2 {
+			o.Class("mixed-case")
+		}
+	}
 	if withBrute {
 		o.Class("brute-force-checked")
 	}
@@ -628,15 +680,26 @@ func TestExhaustive(t *testing.T) {
 	if pbt.Thorough() {
 		alphabet, maxLen = "ACG", 5
 	}
-	seqs := allSeqs(alphabet, maxLen)
+	// soft-masked input: {a,C} (lower case only for one letter) and {A,a} (the same letter in both cases)
+	type space struct {
+		alphabet string
+		maxLen   int
+	}
+	spaces := []space{{alphabet, maxLen}, {"aC", 4}, {"Aa", 4}}
+	if pbt.Thorough() {
+		spaces = append(spaces, space{"AaC", 4})
+	}
 	grid := schemeGrid()
-	name := fmt.Sprintf("all ordered pairs of sequences of length 1..%d over {%s} x %d match/mismatch/open/extend schemes", maxLen, alphabet, len(grid))
+	name := fmt.Sprintf("all ordered pairs of sequences of length 1..%d over {%s}, and of length 1..4 over {a,C} and {A,a} (thorough: {A,a,C}), x %d match/mismatch/open/extend schemes", maxLen, alphabet, len(grid))
 	pbt.Enumerate(t, name, func(yield func(swCase) bool) {
-		for _, s1 := range seqs {
-			for _, s2 := range seqs {
-				for k, sch := range grid {
-					if !yield(swCase{S1: s1, S2: s2, Kind: "dna", Sch: sch, SetScoreFirst: k%2 == 0}) {
-						return
+		for _, sp := range spaces {
+			seqs := allSeqs(sp.alphabet, sp.maxLen)
+			for _, s1 := range seqs {
+				for _, s2 := range seqs {
+					for k, sch := range grid {
+						if !yield(swCase{S1: s1, S2: s2, Kind: "dna", Sch: sch, SetScoreFirst: k%2 == 0}) {
+							return
+						}
 					}
 				}
 			}
@@ -657,8 +720,10 @@ func TestExhaustiveMatrix(t *testing.T) {
 	spaces := []space{{"dna", "ARN", maxLen, gaps}, {"dna", "GSB", maxLen, gaps}, {"aa", "QEL", maxLen, gaps}, {"aa", "FIZ", maxLen, gaps},
 		// four letters with pair scores 5, 2, 0, -1, -2 and a gap that costs less than a strong pair: a
 		// weak positive pair can restart an alignment in the middle of a running gap
-		{"aa", "EDAR", 4, [][2]float64{{-3.5, -0.5}}}}
-	name := fmt.Sprintf("all ordered pairs of length 1..%d over {A,R,N}, {G,S,B} (EDNAFULL) and {Q,E,L}, {F,I,Z} (BLOSUM62) x %d gap settings; of length 1..4 over {E,D,A,R} with open -3.5, extend -0.5", maxLen, len(gaps))
+		{"aa", "EDAR", 4, [][2]float64{{-3.5, -0.5}}},
+		// soft-masked letters
+		{"dna", "aRn", 3, gaps}, {"aa", "qEl", 3, gaps}}
+	name := fmt.Sprintf("all ordered pairs of length 1..%d over {A,R,N}, {G,S,B} (EDNAFULL) and {Q,E,L}, {F,I,Z} (BLOSUM62) x %d gap settings; of length 1..4 over {E,D,A,R} with open -3.5, extend -0.5; of length 1..3 over {a,R,n} and {q,E,l}", maxLen, len(gaps))
 	pbt.Enumerate(t, name, func(yield func(swCase) bool) {
 		for _, sp := range spaces {
 			seqs := allSeqs(sp.alphabet, sp.maxLen)
@@ -679,7 +744,7 @@ func TestExhaustiveMatrix(t *testing.T) {
 
 type entryCase struct {
 	Kind string `json:"kind"`
-	X    string `json:"x"`
+	X    string `json:"x"` // either letter may be in lower case
 	Y    string `json:"y"`
 }
 
@@ -694,7 +759,7 @@ func TestMatrixEntries(t *testing.T) {
 			}
 		}
 	}
-	pbt.Enumerate(t, "every entry of EDNAFULL (16x16) and BLOSUM62 (24x24), each pinned by the optimum of a flanked pair fXf / fYf", func(yield func(entryCase) bool) {
+	pbt.Enumerate(t, "every entry of EDNAFULL (16x16) and BLOSUM62 (24x24), each pinned by the optimum of a flanked pair fXf / fYf, with X / X and Y in lower case too", func(yield func(entryCase) bool) {
 		for _, k := range []string{"dna", "aa"} {
 			tb := dnaTable
 			if k == "aa" {
@@ -702,8 +767,14 @@ func TestMatrixEntries(t *testing.T) {
 			}
 			for i := 0; i < len(tb.letters); i++ {
 				for j := 0; j < len(tb.letters); j++ {
-					if !yield(entryCase{k, string(tb.letters[i]), string(tb.letters[j])}) {
-						return
+					x, y := string(tb.letters[i]), string(tb.letters[j])
+					for _, e := range []entryCase{{k, x, y}, {k, strings.ToLower(x), y}, {k, strings.ToLower(x), strings.ToLower(y)}} {
+						if e.X == x && e.Y == y && e != (entryCase{k, x, y}) {
+							continue // '*' has no lower case
+						}
+						if !yield(e) {
+							return
+						}
 					}
 				}
 			}
@@ -720,9 +791,10 @@ func TestMatrixEntries(t *testing.T) {
 		}
 		// is the entry really pinned: lowering it lowers the optimum, raising it raises it
 		base := c.Sch.sub(tb)
-		x, y := e.X[0], e.Y[0]
+		x, y := up(e.X[0]), up(e.Y[0])
 		shift := func(d float64) subFn {
 			return func(a, b byte) float64 {
+				a, b = up(a), up(b)
 				if (a == x && b == y) || (a == y && b == x) {
 					return base(a, b) + d
 				}
@@ -823,6 +895,40 @@ func genPair(t *rapid.T, letters string, maxLen int) (string, string) {
 	return s1, s2
 }
 
+// lowerWindow / softMask: soft-masked (lower case) residues, as repeat maskers write them
+func lowerRange(s string, a, b int) string {
+	return s[:a] + strings.ToLower(s[a:b]) + s[b:]
+}
+
+func softMask(t *rapid.T, s1, s2 string) (string, string) {
+	one := func(s string, how int) string {
+		switch how {
+		case 0:
+			return strings.ToLower(s)
+		case 1: // a window
+			a := rapid.IntRange(0, len(s)-1).Draw(t, "maskfrom")
+			b := rapid.IntRange(a+1, len(s)).Draw(t, "maskto")
+			return lowerRange(s, a, b)
+		default: // residue by residue
+			for i := 0; i < len(s); i++ {
+				if rapid.IntRange(0, 2).Draw(t, "maskc") == 0 {
+					s = lowerRange(s, i, i+1)
+				}
+			}
+			return s
+		}
+	}
+	switch k := rapid.SampledFrom([]int{9, 9, 9, 9, 9, 9, 9, 9, 0, 1, 2, 3, 4, 5, 6, 7}).Draw(t, "case"); k {
+	case 0, 1, 2: // both sequences, the same way
+		return one(s1, k), one(s2, k)
+	case 3, 4, 5: // the first only
+		return one(s1, k-3), s2
+	case 6, 7: // the second only
+		return s1, one(s2, k-6)
+	}
+	return s1, s2 // upper case
+}
+
 func genSW(t *rapid.T) swCase {
 	var c swCase
 	c.Sch = genScheme(t)
@@ -848,6 +954,7 @@ func genSW(t *rapid.T) swCase {
 		}
 		c.S1, c.S2 = genPair(t, letters, 40)
 	}
+	c.S1, c.S2 = softMask(t, c.S1, c.S2)
 	return c
 }
 
@@ -872,6 +979,7 @@ func TestInputsUnmodified(t *testing.T) {
 			letters = protLetters
 		}
 		c.S1, c.S2 = genPair(t, letters, 20)
+		c.S1, c.S2 = softMask(t, c.S1, c.S2)
 		// sometimes a character that no matrix knows, at a drawn position of either sequence
 		if k := rapid.IntRange(0, 3).Draw(t, "foreign"); k < 2 {
 			ch := "-.?J"[rapid.IntRange(0, 3).Draw(t, "foreignchar")]
@@ -934,6 +1042,9 @@ func TestInputsUnmodified(t *testing.T) {
 		}
 		o.NonTrivial = rev(c.S1) != c.S1 && rev(c.S2) != c.S2
 		o.Class("atg=%v", c.ATG)
+		if hasLower(c.S1 + c.S2) {
+			o.Class("lower-case-present,atg=%v", c.ATG)
+		}
 		switch {
 		case panicked:
 			o.Class("outcome=panic(not judged)")
@@ -1007,7 +1118,7 @@ func TestCLI(t *testing.T) {
 		sw := genSW(t)
 		// the command line has no way to say which alphabet is meant: keep to pairs whose alphabet is
 		// not open
-		if sw.Kind == "aa" && !strings.ContainsAny(sw.S1+sw.S2, protOnly) {
+		if sw.Kind == "aa" && !strings.ContainsAny(strings.ToUpper(sw.S1+sw.S2), protOnly) {
 			sw.S1 = "Q" + sw.S1
 		}
 		c.Kind = sw.Kind
@@ -1112,7 +1223,26 @@ func TestCLI(t *testing.T) {
 			tb = protTable
 		}
 		s1, s2 := c.Seqs[0].Seq, c.Seqs[1].Seq
-		info, jerr := judge(s1, s2, c.Sch.sub(tb), c.Sch.Open, c.Sch.Extend, ob, len(s1) <= 3 && len(s2) <= 3)
+		var info info
+		var jerr error
+		lower := hasLower(s1 + s2)
+		for ri, rd := range readingsOf(c.Sch, tb, lower) {
+			var e error
+			info, e = judge(s1, s2, rd, c.Sch.Open, c.Sch.Extend, ob, len(s1) <= 3 && len(s2) <= 3)
+			if e == nil {
+				jerr = nil
+				if ri > 0 {
+					o.Ambiguous++
+				}
+				if lower {
+					o.Class("lower-case-present:%s", rd.name)
+				}
+				break
+			}
+			if jerr == nil {
+				jerr = e
+			}
+		}
 		if jerr != nil {
 			return o, fmt.Errorf("goalign %v: %v", args, jerr)
 		}
